@@ -30,17 +30,17 @@ structure GenCfg where
   elemNilCmpMissing : Bool := true
   /-- `true` (original emitter): Length/Capacity of a root map/slice type on the empty path report 0
       (`if len(path) == 0 { return nil }` precedes the branch that would report the root's own len). -/
-  lcRootZero : Bool := true
+  lcRootZero : Bool := false   -- repaired in /repo (fix: Length/Capacity of a root map or slice type)
   /-- `true` (original emitter): Length/Capacity of a slice whose element type has no `hasc`
       (a slice of scalars) report 0 — the emitter returns before emitting anything. -/
-  lcScalarSliceZero : Bool := true
+  lcScalarSliceZero : Bool := false   -- repaired in /repo (fix: Length/Capacity of a slice of scalars)
   /-- `true` (original emitter): Length/Capacity on a path that stops on a nested struct index
       `path[d]` without a length test and panic. -/
-  lcStructStopPanics : Bool := true
+  lcStructStopPanics : Bool := false   -- repaired in /repo (fix: Length/Capacity on a path that stops on a nested struct)
   /-- `true` (original emitter): for a map value / slice element that is itself a struct, map or slice,
       `if len(path) < d+2 { return nil }` returns before the element's own `len(path) == d+1` branch:
       Length/Capacity of a collection held in a map or slice store 0. -/
-  lcElemStopZero : Bool := true
+  lcElemStopZero : Bool := false   -- repaired in /repo (fix: Length/Capacity of a collection held in a map or slice)
   /-- `true` (original emitter): in DeepEqual the nil test emitted for a pointer-to-scalar (or `*[]byte`)
       struct field looks at the parent's variables: nil-ness of such fields is never compared and a nil
       field is dereferenced (panic). -/
@@ -101,7 +101,7 @@ deriving Repr, Inhabited
 /-- The configuration that mirrors the tree as it is (flags flip when a `fix:` commit lands). -/
 def GenCfg.repo : GenCfg := {}
 /-- The tree as it was at the pinned commit (1c76ae3), before the `fix:` commits in /repo. -/
-def GenCfg.original : GenCfg := { GenCfg.repo with strAppendsOld := true, negIndexPanics := true, loopRootMapSkipped := true, loopNilKeyPanics := true, nilRootPanics := true, resetNilPtrPanics := true, fallThroughAlways := true, nilInterceptAnyDepth := true, assignNilSrcPanics := true }
+def GenCfg.original : GenCfg := { GenCfg.repo with strAppendsOld := true, negIndexPanics := true, loopRootMapSkipped := true, loopNilKeyPanics := true, nilRootPanics := true, resetNilPtrPanics := true, fallThroughAlways := true, nilInterceptAnyDepth := true, assignNilSrcPanics := true, lcStructStopPanics := true, lcElemStopZero := true, lcRootZero := true, lcScalarSliceZero := true }
 /-- Every listed defect repaired: the configuration the property theorems are proved for. -/
 def GenCfg.fixed : GenCfg where
   fallThroughAlways := false
